@@ -11,12 +11,12 @@ open Chalk.FixedPoint.Cyc (JE JA MinLe InCache InGraph Def Undef flagAt StackExt
   setCycle_getElem?_eq)
 
 section
-variable {inst : Instance} {P : Nat → Prop} {dom : List Nat} {lvl : Nat → Nat}
+variable {inst : Instance} {P : Nat → Prop} {dom : List Nat} {lvl : Nat → Nat} {fx : Bool}
 variable {s0 st s1 : St} {g : Nat} {old cur : V} {m : Min} {new : List Node}
 
-theorem After.restart (A : After inst P dom lvl s0 st s1 g old cur m new) {s2 : St} (R : Rest s1 s2)
+theorem After.restart (A : After inst P dom lvl fx s0 st s1 g old cur m new) {s2 : St} (R : Rest s1 s2)
     (hst2 : s2.stack = setCycle false s0.stack.length s1.stack)
-    (hg2 : s2.graph = s0.graph ++ [headNode s0 g cur]) : LoopSt inst P dom lvl s0 g s2 := by
+    (hg2 : s2.graph = s0.graph ++ [headNode s0 g cur]) : LoopSt inst P dom lvl fx s0 g s2 := by
   have hlen2 : s2.stack.length = s0.stack.length + 1 := by rw [hst2, setCycle_length, A.slen]
   have hsext : ∀ (i : Nat) (e : StackEntry), s0.stack[i]? = some e → ∃ e' : StackEntry, s2.stack[i]? = some e' ∧
       e'.coinductiveGoal = e.coinductiveGoal ∧ (e.cycle = true → e'.cycle = true) := by
@@ -41,9 +41,15 @@ theorem After.restart (A : After inst P dom lvl s0 st s1 g old cur m new) {s2 : 
     | inl h => exact ⟨n, A.g0 h.2, rfl⟩
     | inr h => exact ⟨_, by rw [h.1]; exact A.head, by rw [h.2]; rfl⟩
   have hhead2 : s2.graph[s0.graph.length]? = some (headNode s0 g cur) := by rw [hg2]; exact mid_at _ _ _
-  have hinv : Inv inst P dom lvl s2 := by
-    refine ⟨?_, ?_, ?_, ?_, ?_, ?_, ?_, ?_, ?_, ?_, ?_, ?_, ?_, ?_⟩
-    · rw [R.oracle, R.oracleDefault, R.interrupted]; exact A.i1.quiet
+  have hinv : Inv inst P dom lvl fx s2 := by
+    refine ⟨A.fixes5 R.oracle R.oracleDefault R.interrupted, ?_, ?_, ?_, ?_, ?_, ?_, ?_, ?_, ?_, ?_, ?_, ?_, ?_, ?_⟩
+    · intro i n hn ha
+      rw [R.interrupted]
+      cases hnode hn with
+      | inl h => exact A.i1.amb i n (A.g0 h.2) ha
+      | inr h =>
+        rw [h.2] at ha
+        exact A.amb ha
     · exact fun k v h => A.i1.cacheOK k v (R.inCache.mp h)
     · -- stackNode
       intro d e he
@@ -137,7 +143,8 @@ theorem After.restart (A : After inst P dom lvl s0 st s1 g old cur m new) {s2 : 
         exact ⟨n', by rw [hg2]; exact getElem?_prefix hn', hle⟩
       | inr h => rw [h.2] at hd; cases hd
   refine ⟨A.L.hP, A.L.i0, A.L.u0, A.L.gdom, A.L.below, hinv, ⟨cur, hg2⟩, hlen2, hsext,
-    fun k v h => R.inCache.mpr (A.cacheExt k v h), ?_, by rw [R.cache, A.step.cacheMode, A.L.cacheMode]⟩
+    fun k v h => R.inCache.mpr (A.cacheExt k v h), ?_, by rw [R.cache, A.step.cacheMode, A.L.cacheMode],
+    (A.flags R.oracle R.oracleDefault R.interrupted).1, (A.flags R.oracle R.oracleDefault R.interrupted).2⟩
   intro k hu hd
   apply loop_low A.L A.i1 A.step A.fact k hu
   cases hd with
